@@ -81,7 +81,6 @@ macro_rules! c13_p {
             c13_forward($p);
         }
         #[kani::proof]
-        #[kani::unwind(300)]
         pub fn $b() {
             c13_backward($p);
         }
